@@ -44,7 +44,7 @@ class C01(Check):
             "ASan+UBSan(+float-cast): the outcome must be a value, a parse error or a runtime error; (b) source texts: generated "
             "valid programs mutated at EVERY token position (delete, duplicate, replace, truncate) and by byte edits (NUL, high "
             "bytes, unterminated strings/comments, >1023-byte lines), through Parser::parse+run, the C API and the "
-            "statement-at-a-time path. A crash is a violation unless it is a listed known finding (identified by construct + "
+            "statement-at-a-time path; (c) the witnesses of repaired crashes (e.g. a for body that nulls its control variable: NOT_INTEGER since dcf5ae2). A crash is a violation unless it is a listed known finding (identified by construct + "
             "crash class). distinct = case text.")
 
     def gen_cases(self):
@@ -150,6 +150,19 @@ class C01(Check):
                 n += 1
                 cases.append(Case("c%d" % n, "", "|".join(["new 0", "%s 0 %s" % (mode, hx(mtxt.encode("latin-1", "replace")))]),
                                   {"family": "text", "name": mode, "expr": mtxt[:4000]}))
+        # (c) witnesses of repaired crashes, replayed on every run through all three paths (a re-introduced defect is a violation)
+        # BEGIN r06
+        fixed_witnesses = [
+            "for k in 1 to 3 loop k = int(); end loop;",                                   # dcf5ae2 (was C06.for_iterator_set_null / C01.un.for_iterator_null)
+            "z = int(); for k in 3 to 1 loop print k; k = z; end loop; print \"after\";",
+            "begin for k in 1 to 3 loop k = int(); continue; end loop; exception when others then print \"no\"; end;",
+        ]
+        for wtxt in fixed_witnesses:
+            for mode in ("prog", "capi", "step"):
+                n += 1
+                cases.append(Case("c%d" % n, "", "|".join(["new 0", "%s 0 %s" % (mode, hx(wtxt.encode("latin-1")))]),
+                                  {"family": "text", "name": mode, "expr": wtxt}))
+        # END r06
         self.stats["cases"] = n
         return cases
 
